@@ -209,7 +209,7 @@ _C = ', '.join(n for n, _ in _P)
 _B = '0 <= mode < 5 and 0 <= ka < %d and 0 <= kb < %d and 0 <= su <= 2 and 0 <= td <= 2 and 0 <= fault < %d' % (len(KA), len(KB), len(FAULTS))
 _BAD = '((ka != 0 and ka != 4 and ka != 5 and ka != 8) + (kb != 0) + imp + (su != 0) + (td != 0) + (fault != 0))'
 _Q = _B + ' and %s <= 2 and noise and kb <= 1 and fault != 4' % _BAD
-_T = _B
+_T = _B + ' and %s <= 2' % _BAD
 
 
 def _v(**kw):
